@@ -202,7 +202,75 @@ def scan_rename_stream(ctx: Ctx, n: int):
     ctx.stat("scan_rename_cases", n)
 
 
+def diagram_rename_stream(ctx: Ctx, n: int):
+    """DiagramRule under injective renamings: one abstract diagram (components = pairwise unrelated modules, drawn arrows) and
+    import relation, materialised under the four namings; verdict and report (names mapped back) must coincide, both modes."""
+    from pytestarch import DiagramRule
+    from harness import common
+    d = common.scratch_dir()
+    try:
+        for it in range(n):
+            rng = ctx.rng
+            anodes = abstract_tree(rng, rng.choice([6, 9, 12]))
+            cand = [x for x in anodes if x != ()]
+            rng.shuffle(cand)
+            comps = []
+            for x in cand:
+                if not any(x[:len(y)] == y or y[:len(x)] == x for y in comps):
+                    comps.append(x)
+            comps = comps[:rng.randint(2, 5)]
+            if len(comps) < 2:
+                continue
+            rel = set()
+            for _ in range(rng.randint(1, 5)):
+                a, b = rng.choice(comps), rng.choice(comps)
+                if a != b:
+                    rel.add((a, b))
+            below = lambda c: [x for x in anodes if x[:len(c)] == c]
+            E = {(rng.choice(below(a)), rng.choice(below(b))) for a, b in rel}
+            r = rng.random()
+            if r < 0.3 and E:
+                E.discard(rng.choice(sorted(E)))
+            elif r < 0.7:
+                a, b = rng.choice(comps), rng.choice(comps)      # an import between two components, drawn or not
+                if a != b:
+                    E.add((rng.choice(below(a)), rng.choice(below(b))))
+            aedges = sorted(e for e in E if e[0] != e[1])
+            perm = list(range(9))
+            rng.shuffle(perm)
+            namings = [FREE, [ADV[perm[i]] for i in range(9)], [ADV2[perm[(i + 3) % 9]] for i in range(9)], [ADVU[perm[(i + 6) % 9]] for i in range(9)]]
+            per = []
+            for k, names in enumerate(namings):
+                nodes = [render(x, names) for x in anodes]
+                edges = [(render(a, names), render(b, names)) for a, b in aedges]
+                back = {render(x, names): x for x in anodes}
+                lines = [f"[{render(c, names)}]" for c in comps] + [f"[{render(a, names)}] --> [{render(b, names)}]" for a, b in sorted(rel)]
+                p = d / f"d{it}_{k}.puml"
+                p.write_text("@startuml\n" + "\n".join(lines) + "\n@enduml\n", encoding="utf-8")
+                arch = rules.make_arch_direct(nodes, edges)
+                outs = []
+                for only in (True, False):
+                    io = rules.run_rule(DiagramRule(should_only_rule=only).from_file(p).base_module_included_in_module_names(), arch)
+                    ctx.evaluations += 1
+                    outs.append((io[0], unrender_lines(rules.parse_message(io[1]) or (), back) if io[0] == "FAIL" else frozenset()))
+                per.append((names, nodes, edges, outs, p.read_text(encoding="utf-8")))
+            for other in per[1:]:
+                for i, (o0, o1) in enumerate(zip(per[0][3], other[3])):
+                    if o0 != o1:
+                        ctx.violation(dict(kind="diagram", naming_a=per[0][0], naming_b=other[0], diagram_a=per[0][4], diagram_b=other[4], nodes_a=per[0][1], edges_a=per[0][2], nodes_b=other[1], edges_b=other[2],
+                                           should_only_rule=(i == 0), outcome_a=[o0[0], sorted(map(str, o0[1]))], outcome_b=[o1[0], sorted(map(str, o1[1]))]),
+                                      f"DiagramRule (should_only_rule={i == 0}) changes under an injective renaming of path components: {o0[0]} vs {o1[0]}", {"kind": "diagram"})
+                        break
+            if len({o[0] for o in per[0][3]}) > 1 or per[0][3][0][0] == "FAIL":
+                ctx.mark_nontrivial(("diagram", it))
+            ctx.stat("diagram")
+    finally:
+        import shutil
+        shutil.rmtree(d, ignore_errors=True)
+
+
 def run(ctx: Ctx):
+    diagram_rename_stream(ctx, 150 if ctx.quick else 4000)
     scan_rename_stream(ctx, 60 if ctx.quick else 1500)
     n = 900 if ctx.quick else 24000
     per = 30
@@ -217,7 +285,7 @@ def run(ctx: Ctx):
     ctx.rule = (f"{n} abstract cases (tree over component ids, import relation, and either a module rule pick (1-2 subjects x 1-2 objects, both filter kinds, related allowed; 14 shapes) "
                 "or a layered architecture with a layer rule (14 shapes)) each materialised under four injective namings: collision-free, a non-ASCII pool (first characters below and above U+00FF), and two adversarial pools in which siblings are string "
                 "prefixes/substrings of each other; real outcomes (verdict, parsed message lines, layer tags) compared after mapping names back to ids; plot labels likewise (see C17); projects scanned under three namings with module_path below root_path and externals kept (modules / imports equal up to the renaming); "
-                "every evaluation also compared with the model; non-trivial = case whose shapes give different verdicts")
+                "DiagramRules (both modes) for one abstract diagram and import relation under the four namings; every evaluation also compared with the model; non-trivial = case whose shapes give different verdicts")
 
 
 def replay(ctx: Ctx, path: str) -> int:
